@@ -39,7 +39,7 @@ def run(ctx):
         def leaf_factory(la, lu):
             def leaf(t):
                 if t[0] == "call" and t[1] == "builtins.len" and t[2]:
-                    if t[2][0] == arg:
+                    if t[2][0] == arg or t[2][0] == ("const", "t" * la):
                         return la
                     if _not_longer_than_url(ctx, t[2][0]):
                         # the measure may be taken on the url or on a rewriting of it that never lengthens it
@@ -47,6 +47,10 @@ def run(ctx):
                     raise Unknown("len of other")
                 if t == ("param", "recursive"):
                     return True
+                if t == arg:
+                    return "t" * la  # the target handed to the recursive call: a string of the assumed length (never None on this path)
+                if _not_longer_than_url(ctx, t):
+                    return "u" * lu
                 raise Unknown("leaf")
             return leaf
         verdict = {}
@@ -54,7 +58,7 @@ def run(ctx):
             feasible = True
             for c, pol in conds:
                 try:
-                    v = bool(eval_term(c, leaf_factory(la, lu)))
+                    v = bool(eval_term(_subst(c, arg, ("const", "t" * la)), leaf_factory(la, lu)))
                 except Unknown:
                     continue  # condition does not speak about the lengths: does not constrain
                 if v != pol:
@@ -159,6 +163,15 @@ def run(ctx):
     control_chars_language(ctx, "R3")
 
 
+def _subst(t, old, new):
+    """the term with every occurrence of `old` replaced (the target handed to the recursive call, taken as a string of the assumed length: never None on that path)"""
+    if t == old:
+        return new
+    if not isinstance(t, tuple) or not t:
+        return t
+    return F.map_children(t, lambda x: _subst(x, old, new))
+
+
 def _not_longer_than_url(ctx, t):
     """t is the url parameter, or PATTERN.sub(callback, <such a term>) where every match of PATTERN is a %HH escape
     (regex-language inclusion) and the callback never returns more characters than it was given (all 484 escapes)."""
@@ -216,6 +229,9 @@ FIXED_POINT_CELLS = [
     "http://a.com?u=%2Fx", "http://a.com#x/?u=%2Fy", "http://a.com?page=2#&url=/x",
 ]
 # a relative target is joined to the url the way a browser resolves a reference (RFC 3986 5.2): it replaces path, query and fragment
+# an absolute target is the whole percent-decoded value of the key: it ends at the next '&' (a raw '#' belongs to it)
+ABSOLUTE_TARGETS = {"http://a.com/r?url=http://b.org/x#frag": "http://b.org/x#frag", "http://a.com/r?next=https%3A%2F%2Fb.org%2Fapp%23inbox&z=1": "https://b.org/app#inbox", "https://app.a.com/#/login?redirect=/#/dashboard": "https://app.a.com/#/dashboard",
+                    "http://a.com/r?url=http%3A%2F%2Fb.org%2Fx": "http://b.org/x"}
 JOINED_TARGETS = {"http://a.com/r?url=%2Fx": "http://a.com/x", "http://a.com?u=%2Fx": "http://a.com/x", "http://a.com#x/?u=%2Fy": "http://a.com/y", "http://a.com?page=2#&url=/x": "http://a.com/x", "http://a.com/r?u=/x&v=1": "http://a.com/x"}
 
 
@@ -227,7 +243,7 @@ def fixed_point_table(ctx, rule):
     ref = mod.func("infer_redirection")
     site = mod.site(ref.node)
     n = 0
-    for u in FIXED_POINT_CELLS:
+    for u in FIXED_POINT_CELLS + [c for c in sorted(ABSOLUTE_TARGETS) if c not in FIXED_POINT_CELLS]:
         try:
             r = run_function(repo, ref, [u])
             again = run_function(repo, ref, [r]) if isinstance(r, str) else None
@@ -258,6 +274,8 @@ def fixed_point_table(ctx, rule):
             problems.append("step-by-step application converges to %r" % (step,))
         if isinstance(r, str) and r != u and len(r) >= len(u):
             problems.append("the result is not shorter than the url it is supposed to be embedded in")
+        if u in ABSOLUTE_TARGETS and r != ABSOLUTE_TARGETS[u]:
+            problems.append("the embedded target is %r" % ABSOLUTE_TARGETS[u])
         if u in JOINED_TARGETS and r not in (u, JOINED_TARGETS[u]):
             problems.append("the relative target joined to the url is %r" % JOINED_TARGETS[u])
         ctx.ob(rule, "fixed-point/%r" % u, not problems, "infer_redirection(%r) gives %r: %s" % (u, r, "; ".join(problems)), site, witness=u, sample="%r -> %r" % (u, r) if "ampproject" in u or "a&url" in u else None)
